@@ -569,6 +569,26 @@ theorem pyFloorDiv_rescale (x y : Rat) {f g : Rat} (hf : f ≠ 0) :
     pyFloorDiv x (y * (g / f)) = pyFloorDiv (x * f) (y * g) := by
   unfold pyFloorDiv; rw [rat_div_rescale x y hf]
 
+/-- multiplicative operands pass through `offsetFree` unchanged (quantity operand) -/
+theorem offsetFree_q_mult {R : Registry} (m : Mode) {a b : Qty}
+    (ha : R.isMultQ a = true) (hb : R.isMultQ b = true) :
+    R.offsetFree m a (.q b) = .ok (a, .q b) := by
+  unfold Registry.offsetFree
+  simp [ha, hb]
+
+/-- multiplicative operands pass through `offsetFree` unchanged (bare-number operand) -/
+theorem offsetFree_num_mult {R : Registry} (m : Mode) {a : Qty} (x : Rat)
+    (ha : R.isMultQ a = true) :
+    R.offsetFree m a (.num x) = .ok (a, .num x) := by
+  unfold Registry.offsetFree
+  simp [ha]
+
+theorem offsetFree_q_good {R : Registry} {S : String → Prop} (m : Mode)
+    {a b : Qty} {ua ub da db : UC} {fa fb : Rat}
+    (ha : Good R S a fa ua da) (hb : Good R S b fb ub db) :
+    R.offsetFree m a (.q b) = .ok (a, .q b) :=
+  offsetFree_q_mult m (isMultQ_registered ha.reg) (isMultQ_registered hb.reg)
+
 /-- (T3) floor division is the floor of the ratio of the physical values -/
 theorem floordiv_phys {R : Registry} {S : String → Prop} (hW : R.WFintOn S) (m : Mode)
     {a b : Qty} {ua ub da db : UC} {fa fb : Rat}
@@ -586,14 +606,15 @@ theorem floordiv_phys {R : Registry} {S : String → Prop} (hW : R.WFintOn S) (m
       · exact hnb h
       · exact hna (by rw [← Rat.inv_inv fa, h, Rat.inv_zero])
   unfold Registry.floordiv
-  simp only [convertTo_good hW m ha hb he, hv, if_false, pyFloorDiv_rescale _ _ hna]
+  simp only [offsetFree_q_good m ha hb, convertTo_good hW m ha hb he, hv, if_false,
+    pyFloorDiv_rescale _ _ hna]
 
 theorem floordiv_dim_error {R : Registry} {S : String → Prop} (m : Mode)
     {a b : Qty} {ua ub da db : UC} {fa fb : Rat}
     (ha : Good R S a fa ua da) (hb : Good R S b fb ub db) (he : da.beq db = false) :
     R.floordiv m a (.q b) = .error .dimensionality := by
   unfold Registry.floordiv
-  simp only [convertTo_dim_error m ha hb he]
+  simp only [offsetFree_q_good m ha hb, convertTo_dim_error m ha hb he]
 
 /-- (T4) modulo: in the units of the left operand, physical value = `pyMod` of the physical values -/
 theorem mod_phys {R : Registry} {S : String → Prop} (hW : R.WFintOn S) (m : Mode)
@@ -614,7 +635,7 @@ theorem mod_phys {R : Registry} {S : String → Prop} (hW : R.WFintOn S) (m : Mo
       · exact hna (by rw [← Rat.inv_inv fa, h, Rat.inv_zero])
   refine ⟨⟨pyMod a.mag (b.mag * (fb / fa)), a.units⟩, ?_, rfl, ?_⟩
   · unfold Registry.mod
-    simp only [convertTo_good hW m ha hb he, hv, if_false]
+    simp only [offsetFree_q_good m ha hb, convertTo_good hW m ha hb he, hv, if_false]
   · show pyMod a.mag (b.mag * (fb / fa)) * fa = _
     unfold pyMod
     rw [pyFloorDiv_rescale _ _ hna]
@@ -641,7 +662,8 @@ theorem floordiv_char {R : Registry} {S : String → Prop} (hW : R.WFintOn S) (m
   | true =>
     rw [if_pos rfl]
     unfold Registry.floordiv
-    simp only [convertTo_good hW m ha hb he, convTo_zero_iff hna, pyFloorDiv_rescale _ _ hna]
+    simp only [offsetFree_q_good m ha hb, convertTo_good hW m ha hb he, convTo_zero_iff hna,
+      pyFloorDiv_rescale _ _ hna]
 
 /-- `compare` as a function of dimensionalities and physical values only -/
 theorem compare_char {R : Registry} {S : String → Prop} (hW : R.WFintOn S) (m : Mode)
